@@ -209,3 +209,102 @@ def run(prog, rule="R-LPSTATE", floor=6):
     res.counts["api_call_sites_reading_simplex_state"] = nsite
     res.floor("API call sites handing p->lp to a reader of the simplex state", nsite, floor)
     return res
+
+
+def _rejects(f, succ, bid):
+    """the branch stores a non-zero constant into the error code / returns one within its first blocks"""
+    for _ in range(4):
+        for e in f.blocks[bid]["e"]:
+            if e[0] == "A" and e[1][1] == "=" and is_var(e[1][2], kind="l") and "rval" in strip(e[1][2])[2] and const_of(e[1][3]) not in (None, 0):
+                return True
+            if e[0] == "R" and e[1] is not None and const_of(e[1]) not in (None, 0):
+                return True
+        ss = succ.get(bid, ())
+        if len(ss) != 1:
+            return False
+        bid = list(ss)[0]
+    return False
+
+
+def run_internal(prog, rule="R-FOKCALL"):
+    """clause B: the library does not call one of its own factorok-guarded functions in a state in which the guard must fail.
+    GUARDED = functions with a rejecting test of qsdata::factorok; RESET = functions whose transitive effects store factorok = 0 and
+    never a non-zero value; SET = functions that may store a non-zero value.  Path-sensitive typestate per function (outside qsopt.c's
+    own wrappers): after a RESET call the state is 'zero', after a SET call 'unknown'; a call of a GUARDED function in state 'zero'
+    can only fail (QSexact_solver's exact re-test called QSget_infeas_array right after QSexact_basis_status had loaded a basis)."""
+    from ..core import Flow
+    res = RuleResult(rule, "no library function calls a factorok-guarded public function on a path on which factorok was last reset and not set again")
+    funcs = [f for f in prog.funcs.values() if f.live is not None and "_dbl." not in f.unit and "_mpf." not in f.unit
+             and (f.unit.startswith("qsopt_ex/") or f.unit.startswith("esolver/"))]
+    guarded, w0, w1 = set(), set(), set()
+    for f in funcs:
+        dom, succ = dominators(prog, f)
+        for bid in f.live:
+            c = f.blocks[bid].get("c")
+            if c is None:
+                continue
+            ss = prog.live_succs(f, f.blocks[bid])
+            if len(ss) != 2:
+                continue
+            for idx, s in enumerate(ss):
+                if s is None:
+                    continue
+                for l, op, r in atoms(c, idx == 0):
+                    if isinstance(l, list) and l and l[0] == "m" and l[2].endswith("qsdata::factorok") and op == "==" and const_of(r) == 0:
+                        if _rejects(f, succ, s):
+                            guarded.add(f.key)
+        for b, i, e in f.elements():
+            if e[0] == "A" and e[1][1] == "=":
+                l = strip(e[1][2])
+                if isinstance(l, list) and l and l[0] == "m" and l[2].endswith("qsdata::factorok"):
+                    (w0 if const_of(e[1][3]) == 0 else w1).add(f.key)
+    W0, W1 = set(w0), set(w1)
+    changed = True
+    while changed:
+        changed = False
+        for f in funcs:
+            for b, i, c in f.calls():
+                g = prog.resolve(f, c[1]) if c[1] else None
+                if g is None:
+                    continue
+                if g.key in W0 and f.key not in W0:
+                    W0.add(f.key)
+                    changed = True
+                if g.key in W1 and f.key not in W1:
+                    W1.add(f.key)
+                    changed = True
+    RESET = W0 - W1
+    res.counts["guarded_functions"] = sorted(prog.funcs[k].name for k in guarded)
+    res.counts["resetting_functions"] = len(RESET)
+    ncalls = 0
+    for f in sorted(funcs, key=lambda x: x.key):
+        sites = [(b["id"], i, c) for b, i, c in f.calls() if (prog.resolve(f, c[1]) if c[1] else None) is not None and prog.resolve(f, c[1]).key in guarded]
+        if not sites:
+            continue
+        ncalls += len(sites)
+        bad = {}
+
+        def xfer(b, i, e, st):
+            if e[0] != "C":
+                return None
+            g = prog.resolve(f, e[1][1]) if e[1][1] else None
+            if g is None:
+                return None
+            if g.key in guarded and st[0] == "zero":
+                bad.setdefault(e[1][4], (g.name, st[1], b["id"], st))
+            if g.key in RESET:
+                return [("zero", g.name)]
+            if g.key in W1:
+                return [("unknown", "")]
+            return None
+        flw = Flow(prog, f, [("unknown", "")], xfer).run()
+        for b0, i0, c in sites:
+            res.obligations += 1
+            res.nontrivial += 1
+        for loc, (gname, by, bid, st) in sorted(bad.items()):
+            res.violations.append(Violation(rule, "%s|%s called after %s reset factorok" % (f.name, gname.replace("mpq_", ""), by.replace("mpq_", "")), f.name, short_loc(loc),
+                                            "%s requires p->factorok, but on this path %s (which resets factorok and never sets it) was the last call that touched it: "
+                                            "the call can only be rejected" % (gname, by), path=flw.witness(bid, st)))
+    res.counts["internal_calls_of_guarded_functions"] = ncalls
+    res.floor("functions with a rejecting factorok test", len(guarded), 5)
+    return res
